@@ -137,14 +137,14 @@ class AttestationsDB(Database):
         assert int(database_version) >= 0
         idatabase_version = int(database_version) or self.LATEST_DB_VERSION
 
-        if idatabase_version < self.LATEST_DB_VERSION:
-            while idatabase_version < self.LATEST_DB_VERSION:
-                upgrade_script = self.get_upgrade_script(current_version=idatabase_version)
-                if upgrade_script:
-                    self.executescript(upgrade_script)
-                idatabase_version += 1
+        upgrade_scripts = ""
+        while idatabase_version < self.LATEST_DB_VERSION:
+            upgrade_scripts += self.get_upgrade_script(current_version=idatabase_version) or ""
+            idatabase_version += 1
 
-        self.executescript(self.get_schema(idatabase_version))
+        # Upgrade and version bump form one transaction: if the process dies half-way, the next open has to
+        # find either the old schema with the old version number or the new schema with the new one.
+        self.executescript("BEGIN TRANSACTION;\n" + upgrade_scripts + self.get_schema(idatabase_version) + "COMMIT;\n")
         self.commit()
 
         return self.LATEST_DB_VERSION
